@@ -1300,8 +1300,12 @@ Fixpoint enc_spec (t : ctype) (v : cval) {struct t} : option bytes :=
 
 Definition Enc (t : ctype) (v : cval) (b : bytes) : Prop := enc_spec t v = Some b.
 
-(* The same specification as an INDUCTIVE RELATION, one rule per sentence of the protocol text
-   (Props/C01.v, C01_enc_relation: [enc_spec] computes exactly this relation).
+(* The same specification as an INDUCTIVE RELATION, rule by rule (Props/C01.v, C01_enc_relation:
+   [enc_spec] computes exactly this relation).  ER_list / ER_set / ER_map / ER_udt and the null
+   items of ER_tuple are sentences of native_protocol_v4 section 6; natives are not relational
+   (ER_native is the table function [enc_native] again); ER_empty, the "trailing components may be
+   left out" of ER_tuple / EI_end and the two vector rules are NOT v4 text: the legacy empty value
+   and short tuples follow ScyllaDB / the driver's convention, vectors the Cassandra 5 format.
      ER_empty         the legacy zero-length value of the types that admit it
      ER_native        section 6, native types (table [enc_native])
      ER_list / _set   "[int] n, followed by n elements; each element is [bytes]"
